@@ -581,7 +581,8 @@ impl<'c> G<'c> {
     fn discriminated(&self, s: &mut Src, depth: usize) -> D {
         let tag = s.pick(&["k", "a", "type"]).to_string();
         let n = s.range(2, 3);
-        let lits = ["a", "b", "c", "a-b"];
+        // (now and then tag values that read the same once non-alphanumeric characters are dropped)
+        let lits = if s.chance(1, 6) { ["a-b", "a_b", "a b", "c"] } else { ["a", "b", "c", "a-b"] };
         let mut branches = vec![];
         let overlapping = s.chance(1, 6);
         // now and then a second property is a discriminator candidate too (distinct literal per branch): which one the
